@@ -156,6 +156,7 @@ impl Prioritize {
         #[cfg(feature = "verif-hooks")]
         let _verif = crate::verif::enter("prio.send_data", || {
             vec![
+                stream.verif_serial,
                 u32::from(stream.id) as i64,
                 stream.state.is_send_streaming() as i64,
                 stream.state.is_send_closed() as i64,
@@ -249,6 +250,7 @@ impl Prioritize {
         #[cfg(feature = "verif-hooks")]
         let _verif = crate::verif::enter("prio.reserve_capacity", || {
             vec![
+                stream.verif_serial,
                 u32::from(stream.id) as i64,
                 stream.state.is_send_streaming() as i64,
                 stream.state.is_send_closed() as i64,
@@ -326,6 +328,7 @@ impl Prioritize {
         #[cfg(feature = "verif-hooks")]
         let _verif = crate::verif::enter("prio.recv_stream_window_update", || {
             vec![
+                stream.verif_serial,
                 u32::from(stream.id) as i64,
                 stream.state.is_send_streaming() as i64,
                 stream.state.is_send_closed() as i64,
@@ -391,6 +394,7 @@ impl Prioritize {
         #[cfg(feature = "verif-hooks")]
         let _verif = crate::verif::enter("prio.reclaim_all_capacity", || {
             vec![
+                stream.verif_serial,
                 u32::from(stream.id) as i64,
                 stream.state.is_send_streaming() as i64,
                 stream.state.is_send_closed() as i64,
@@ -420,6 +424,7 @@ impl Prioritize {
         #[cfg(feature = "verif-hooks")]
         let _verif = crate::verif::enter("prio.reclaim_reserved_capacity", || {
             vec![
+                stream.verif_serial,
                 u32::from(stream.id) as i64,
                 stream.state.is_send_streaming() as i64,
                 stream.state.is_send_closed() as i64,
@@ -511,6 +516,7 @@ impl Prioritize {
         #[cfg(feature = "verif-hooks")]
         let _verif = crate::verif::enter("prio.try_assign_capacity", || {
             vec![
+                stream.verif_serial,
                 u32::from(stream.id) as i64,
                 stream.state.is_send_streaming() as i64,
                 stream.state.is_send_closed() as i64,
@@ -784,6 +790,7 @@ impl Prioritize {
         #[cfg(feature = "verif-hooks")]
         let _verif = crate::verif::enter("prio.clear_queue", || {
             vec![
+                stream.verif_serial,
                 u32::from(stream.id) as i64,
                 stream.state.is_send_streaming() as i64,
                 stream.state.is_send_closed() as i64,
@@ -876,6 +883,7 @@ impl Prioritize {
                                     let _verif =
                                         crate::verif::enter("prio.pop_scheduled_reset", || {
                                             vec![
+                                                stream.verif_serial,
                                                 u32::from(stream.id) as i64,
                                                 stream.state.is_send_streaming() as i64,
                                                 stream.state.is_send_closed() as i64,
@@ -956,6 +964,7 @@ impl Prioritize {
                                 #[cfg(feature = "verif-hooks")]
                                 let _verif = crate::verif::enter("prio.pop_data", || {
                                     vec![
+                                        stream.verif_serial,
                                         u32::from(stream.id) as i64,
                                         stream.state.is_send_streaming() as i64,
                                         stream.state.is_send_closed() as i64,
